@@ -213,7 +213,16 @@ impl Prop for SetDoy {
                     d >= cal::MIN_DAY + 2 && d <= cal::MAX_DAY - 2
                 });
                 if in_margin != Some(false) {
-                    let r = catch(|| mk_dt_off_any(utc, off).set_day_of_year(c.n).map(|d| rd_dt(&d)));
+                    let r = catch(|| {
+                        let (d0, local) = mk_dt_off_pin(utc, off);
+                        (d0.set_day_of_year(c.n).map(|d| rd_dt(&d)), local)
+                    });
+                    let r = r.map(|(v, local)| {
+                        if local {
+                            cx.nt("offset_carried_as_Offset::Local");
+                        }
+                        v
+                    });
                     if crate::model::tl::fields(local).year != crate::model::tl::fields(utc).year {
                         cx.nt("local_year!=utc_year");
                     }
